@@ -99,7 +99,12 @@ for cls in ('Reaction', 'ChemkinReaction'):
             lemma('%s:%s[%s]' % (cls, short, shape), P, forall=dict(self=rx(), **cond_args), given=STOICH_POS, prove=rel)
         lemma('%s:Keq[%s]' % (cls, shape), P, forall=dict(self=rx(), **cond_args), given=STOICH_POS,
               prove=[('Keq=exp(-dG/RT)', 'self.get_Keq(%s) == exp(-self.get_delta_GoRT(%s))' % (CALL, CALL)),
-                     ('Kf*Kr=1', 'self.get_Keq(rev=False, %s) * self.get_Keq(rev=True, %s) == 1' % (CALL, CALL))])
+                     ('Kf*Kr=1', 'self.get_Keq(rev=False, %s) * self.get_Keq(rev=True, %s) == 1' % (CALL, CALL))] +
+                    [('Keq=exp(-dG/RT)[rev=%s,act=%s]' % (r_, a_),
+                      'self.get_Keq(rev=%s, act=%s, %s) == exp(-self.get_delta_GoRT(rev=%s, act=%s, %s))' % (r_, a_, CALL, r_, a_, CALL))
+                     for r_ in (False, True) for a_ in ((False, True) if nts else (False,))] +
+                    ([('activated-constants-ratio', 'self.get_Keq(act=True, %s) == self.get_Keq(rev=True, act=True, %s) * self.get_Keq(%s)'
+                       % (CALL, CALL, CALL))] if nts else []))
         # locality: a block addressed to R0 changes only R0's contribution
         lemma('%s:locality[%s]' % (cls, shape), P,
               forall=dict(self=rx(), T=T, P=PR, R0_kwargs=R0_BLOCK, other=DictOf({'P': Real(0.1, 10.)})),
